@@ -190,6 +190,11 @@ def main():
         out_lines.append("CHECKER-ERROR differential cross-check: a contract clause is false on a real run (%s)" % (
             dc.get("error") or [x.get("clause") for x in dc.get("false", [])][:3] or "canary accepted"))
         rc = 3
+    demos_bad = [n for n, r in (selftest.get("native_demos") or {}).items() if r["exit"] != 0]
+    if demos_bad and rc == 0:
+        out_lines.append("CHECKER-ERROR an independent native demonstration of this property fails on this tree although every "
+                         "obligation is discharged: %s" % ", ".join(demos_bad))
+        rc = 3
     survived = [m for m, st in selftest.get("mutants", {}).items() if st not in ("KILLED", "KILLED-other")]
     if survived and rc == 0:
         out_lines.append("CHECKER-ERROR seeded mutants not killed (contract too weak or engine unsound): %s" % ", ".join(survived))
@@ -220,6 +225,7 @@ def main():
             "canaries": canaries,
             "selftest_mutants": selftest.get("mutants", {}),
             "findings_native": selftest.get("findings_native", {}),
+            "native_demos": selftest.get("native_demos"),
             "diffcheck": {k: v for k, v in (selftest.get("diffcheck") or {}).items() if k != "false"} or None,
             "known_findings": sorted(printed_known),
             "conditioned_on": sorted(set(spec.get("conditioned_on", [])) | printed_known),
